@@ -464,9 +464,9 @@ impl<'a> Runtime<'a> {
                 let is_truthy = match val {
                     Value::Bool(b) => b,
                     Value::Null => false, // null is falsy
-                    _ => unreachable!(
-                        "Semantic analysis guarantees only boolean expressions in conditions"
-                    ),
+                    _ => {
+                        return Err(RuntimeError::new(RuntimeErrorKind::TypeMismatch, cond.span()));
+                    }
                 };
                 if is_truthy {
                     self.exec_block_with_flow(then_b)
@@ -482,9 +482,12 @@ impl<'a> Runtime<'a> {
                     let should_continue = match val {
                         Value::Bool(b) => b,
                         Value::Null => false,
-                        _ => unreachable!(
-                            "Semantic analysis guarantees only boolean expressions in loop conditions"
-                        ),
+                        _ => {
+                            return Err(RuntimeError::new(
+                                RuntimeErrorKind::TypeMismatch,
+                                cond.span(),
+                            ));
+                        }
                     };
                     if !should_continue {
                         break;
@@ -627,7 +630,7 @@ impl<'a> Runtime<'a> {
                     match r {
                         Value::Bool(b) => Ok(Value::Bool(b)),
                         Value::Null => Ok(Value::Bool(false)),
-                        _ => unreachable!("Semantic analysis guarantees boolean expressions"),
+                        _ => Err(RuntimeError::new(RuntimeErrorKind::TypeMismatch, *span)),
                     }
                 }
                 BinaryOp::Or => {
@@ -639,7 +642,7 @@ impl<'a> Runtime<'a> {
                     match r {
                         Value::Bool(b) => Ok(Value::Bool(b)),
                         Value::Null => Ok(Value::Bool(false)),
-                        _ => unreachable!("Semantic analysis guarantees boolean expressions"),
+                        _ => Err(RuntimeError::new(RuntimeErrorKind::TypeMismatch, *span)),
                     }
                 }
                 _ => {
@@ -674,10 +677,15 @@ impl<'a> Runtime<'a> {
                             BinaryOp::Eq => Ok(Value::Bool(ls == rs)),
                             BinaryOp::Gt => Ok(Value::Bool(ls > rs)),
                             BinaryOp::Lt => Ok(Value::Bool(ls < rs)),
-                            _ => unreachable!("Semantic analysis guarantees valid string ops"),
+                            _ => Err(RuntimeError::new(RuntimeErrorKind::TypeMismatch, *span)),
                         },
                         (Value::Str(ls), Value::Number(n)) => {
-                            assert!(matches!(op, BinaryOp::Add));
+                            if !matches!(op, BinaryOp::Add) {
+                                return Err(RuntimeError::new(
+                                    RuntimeErrorKind::TypeMismatch,
+                                    *span,
+                                ));
+                            }
                             let mut writer = LenWriter(0);
                             write!(writer, "{n}").unwrap();
                             let mut s =
@@ -687,7 +695,12 @@ impl<'a> Runtime<'a> {
                             Ok(Value::Str(ArenaCow::Owned(s)))
                         }
                         (Value::Number(n), Value::Str(rs)) => {
-                            assert!(matches!(op, BinaryOp::Add));
+                            if !matches!(op, BinaryOp::Add) {
+                                return Err(RuntimeError::new(
+                                    RuntimeErrorKind::TypeMismatch,
+                                    *span,
+                                ));
+                            }
                             let mut writer = LenWriter(0);
                             write!(writer, "{n}").unwrap();
                             let mut s =
@@ -700,31 +713,29 @@ impl<'a> Runtime<'a> {
                             BinaryOp::Eq => Ok(Value::Bool(lv == rv)),
                             BinaryOp::Gt => Ok(Value::Bool(lv && !rv)), // false < true
                             BinaryOp::Lt => Ok(Value::Bool(!lv & rv)),
-                            _ => unreachable!("Semantic analysis guarantees valid bool ops"),
+                            _ => Err(RuntimeError::new(RuntimeErrorKind::TypeMismatch, *span)),
                         },
                         (Value::Null, Value::Null) => match op {
                             BinaryOp::Eq => Ok(Value::Bool(true)),
                             BinaryOp::Gt | BinaryOp::Lt => Ok(Value::Bool(false)),
-                            _ => unreachable!("Semantic analysis guarantees valid null ops"),
+                            _ => Err(RuntimeError::new(RuntimeErrorKind::TypeMismatch, *span)),
                         },
                         (Value::Null, ..) | (.., Value::Null) => match op {
                             BinaryOp::Eq | BinaryOp::Gt | BinaryOp::Lt => Ok(Value::Bool(false)),
-                            _ => unreachable!("Semantic analysis guarantees valid null ops"),
+                            _ => Err(RuntimeError::new(RuntimeErrorKind::TypeMismatch, *span)),
                         },
-                        _ => {
-                            unreachable!("Semantic analysis guarantees matching operand types")
-                        }
+                        _ => Err(RuntimeError::new(RuntimeErrorKind::TypeMismatch, *span)),
                     }
                 }
             },
 
-            Expr::Unary { op, expr, .. } => {
+            Expr::Unary { op, expr, span } => {
                 let v = self.eval_expr(expr)?;
                 match (op, v) {
                     (UnaryOp::Not, Value::Bool(b)) => Ok(Value::Bool(!b)),
                     (UnaryOp::Not, Value::Null) => Ok(Value::Bool(true)),
                     (UnaryOp::Minus, Value::Number(n)) => Ok(Value::Number(-n)),
-                    _ => unreachable!("Semantic analysis guarantees valid unary expressions"),
+                    _ => Err(RuntimeError::new(RuntimeErrorKind::TypeMismatch, *span)),
                 }
             }
             Expr::Array { elements, .. } => {
@@ -735,11 +746,11 @@ impl<'a> Runtime<'a> {
                 }
                 Ok(Value::Array(values))
             }
-            Expr::Index { array, index, index_span, .. } => {
+            Expr::Index { array, index, index_span, span } => {
                 let array_value = self.eval_expr(array)?;
                 let index_value = self.eval_expr(index)?;
                 let Value::Array(mut items) = array_value else {
-                    unreachable!("Semantic analysis guarantees only arrays can be indexed")
+                    return Err(RuntimeError::new(RuntimeErrorKind::TypeMismatch, *span));
                 };
 
                 let Value::Number(index_number) = index_value else {
@@ -761,8 +772,8 @@ impl<'a> Runtime<'a> {
                 let slot = mem::replace(slot, Value::Null);
                 Ok(slot)
             }
-            Expr::Member { .. } => {
-                unreachable!("Semantic analysis guarantees member access is always a function call")
+            Expr::Member { span, .. } => {
+                Err(RuntimeError::new(RuntimeErrorKind::TypeMismatch, *span))
             }
             Expr::Call { .. } => self.eval_function_call(expr),
         }
@@ -780,7 +791,7 @@ impl<'a> Runtime<'a> {
 
         let func_name = match callee {
             Expr::Var(name, ..) => *name,
-            _ => unreachable!("Semantic analysis guarantees callee is variable or member"),
+            _ => return Err(RuntimeError::new(RuntimeErrorKind::TypeMismatch, *span)),
         };
 
         if let Some(builtin) = GlobalBuiltin::from_name(func_name) {
@@ -883,7 +894,7 @@ impl<'a> Runtime<'a> {
             }
             GlobalBuiltin::Command => {
                 let Value::Str(program) = &arg_values[0] else {
-                    unreachable!("Semantic analysis guarantees string arg")
+                    return Err(RuntimeError::new(RuntimeErrorKind::TypeMismatch, span));
                 };
                 Ok(Value::Host(HostHandle::new_in(
                     self.frame,
@@ -967,8 +978,7 @@ impl<'a> Runtime<'a> {
                     )),
                 },
             },
-            Value::Bool(..) => unimplemented!("Boolean methods not implemented yet"),
-            Value::Null => Err(RuntimeError::new_with_extras(
+            Value::Bool(..) | Value::Null => Err(RuntimeError::new_with_extras(
                 RuntimeErrorKind::TypeMismatch,
                 span,
                 field,
@@ -1116,7 +1126,10 @@ impl<'a> Runtime<'a> {
             ArrayBuiltin::Join => {
                 let sep = self.eval_expr(args.args[0])?;
                 let Value::Str(sep) = sep else {
-                    unreachable!("Semantic analysis guarantees string arg")
+                    return Err(RuntimeError::new(
+                        RuntimeErrorKind::TypeMismatch,
+                        args.args[0].span(),
+                    ));
                 };
                 let result = ArrayBuiltin::join(array, &sep, self.frame);
                 Ok(Value::Str(ArenaCow::Owned(result)))
@@ -1188,7 +1201,10 @@ impl<'a> Runtime<'a> {
                         let s = StringBuiltin::slice(s, start, end, self.frame);
                         Ok(Value::Str(ArenaCow::Owned(s)))
                     }
-                    _ => unreachable!("Semantic analysis guarantees number args"),
+                    _ => Err(RuntimeError::new(
+                        RuntimeErrorKind::TypeMismatch,
+                        args.args[0].span(),
+                    )),
                 }
             }
             StringBuiltin::ToUppercase => {
@@ -1207,7 +1223,10 @@ impl<'a> Runtime<'a> {
                 let needle = self.eval_expr(args.args[0])?;
                 match needle {
                     Value::Str(n) => Ok(Value::Number(StringBuiltin::find(s, &n))),
-                    _ => unreachable!("Semantic analysis guarantees string arg"),
+                    _ => Err(RuntimeError::new(
+                        RuntimeErrorKind::TypeMismatch,
+                        args.args[0].span(),
+                    )),
                 }
             }
             StringBuiltin::Replace => {
@@ -1218,7 +1237,10 @@ impl<'a> Runtime<'a> {
                         let result = StringBuiltin::replace(s, &o, &n, self.frame);
                         Ok(Value::Str(ArenaCow::Owned(result)))
                     }
-                    _ => unreachable!("Semantic analysis guarantees string args"),
+                    _ => Err(RuntimeError::new(
+                        RuntimeErrorKind::TypeMismatch,
+                        args.args[0].span(),
+                    )),
                 }
             }
             StringBuiltin::ToNumber => Ok(Value::Number(StringBuiltin::to_number(s))),
@@ -1232,7 +1254,10 @@ impl<'a> Runtime<'a> {
                             .for_each(|s| collection.push(Value::Str(ArenaCow::Owned(s))));
                         Ok(Value::Array(collection))
                     }
-                    _ => unreachable!("Semantic analysis guarantees string arg"),
+                    _ => Err(RuntimeError::new(
+                        RuntimeErrorKind::TypeMismatch,
+                        args.args[0].span(),
+                    )),
                 }
             }
         }
@@ -1275,7 +1300,7 @@ impl<'a> Runtime<'a> {
                 }
             }
             Expr::Index { .. } => {
-                let (base_expr, base_var, index_exprs) = self.flatten_index_target(object);
+                let (base_expr, base_var, index_exprs) = self.flatten_index_target(object)?;
 
                 let mut evaluated_indices = Vec::with_capacity_in(index_exprs.len(), self.frame);
                 for (index_expr, index_span) in &index_exprs {
@@ -1358,7 +1383,7 @@ impl<'a> Runtime<'a> {
                 }
             }
             Expr::Index { .. } => {
-                let (base_expr, base_var, index_exprs) = self.flatten_index_target(object);
+                let (base_expr, base_var, index_exprs) = self.flatten_index_target(object)?;
 
                 let mut evaluated_indices = Vec::with_capacity_in(index_exprs.len(), self.frame);
                 for (index_expr, index_span) in &index_exprs {
@@ -1607,7 +1632,7 @@ impl<'a> Runtime<'a> {
         value: Value<'a>,
         span: Span,
     ) -> Result<(), RuntimeError> {
-        let (base_expr, base_var, index_exprs) = self.flatten_index_target(target);
+        let (base_expr, base_var, index_exprs) = self.flatten_index_target(target)?;
 
         let mut evaluated_indices = Vec::with_capacity_in(index_exprs.len(), self.frame);
         for (index_expr, index_span) in &index_exprs {
@@ -1656,7 +1681,7 @@ impl<'a> Runtime<'a> {
     fn flatten_index_target(
         &self,
         mut target: ExprRef<'a>,
-    ) -> (ExprRef<'a>, &'a str, Vec<(ExprRef<'a>, Span), &'a Arena>) {
+    ) -> Result<(ExprRef<'a>, &'a str, Vec<(ExprRef<'a>, Span), &'a Arena>), RuntimeError> {
         let mut indices = Vec::new_in(self.frame);
         loop {
             match target {
@@ -1666,9 +1691,11 @@ impl<'a> Runtime<'a> {
                 }
                 Expr::Var(name, ..) => {
                     indices.reverse();
-                    return (target, *name, indices);
+                    return Ok((target, *name, indices));
                 }
-                _ => unreachable!("Semantic analysis guarantees valid index assignment target",),
+                _ => {
+                    return Err(RuntimeError::new(RuntimeErrorKind::TypeMismatch, target.span()));
+                }
             }
         }
     }
